@@ -100,6 +100,11 @@ impl SharedHistory {
         // Update the snapshot. The refresh time and object information may
         // have changed.
         history.current = Some(snapshot.into());
+
+        // The creation time has to change together with the data or else
+        // conditional HTTP requests carrying the previous creation time
+        // would be answered as not modified until the update is marked done.
+        history.update_created(Utc::now());
         res
     }
 
@@ -126,21 +131,6 @@ impl SharedHistory {
                 locked.next_update_start = refresh;
             }
         }
-        locked.created = {
-            if let Some(created) = locked.created {
-                // Since we increase the time, the created time may
-                // actually have moved into the future.
-                if now.timestamp() <= created.timestamp() {
-                    Some(created + chrono::Duration::try_seconds(1).unwrap())
-                }
-                else {
-                    Some(now)
-                }
-            }
-            else {
-                Some(now)
-            }
-        };
     }
 }
 
@@ -297,6 +287,28 @@ impl PayloadHistory {
                 expire: config.expire.as_secs() as u32,
             },
         }
+    }
+
+    /// Updates the creation time of the current data set.
+    ///
+    /// No two data sets may be created within the same second since the
+    /// time used in conditional HTTP requests only has second-resolution.
+    fn update_created(&mut self, now: DateTime<Utc>) {
+        self.created = {
+            if let Some(created) = self.created {
+                // Since we increase the time, the created time may
+                // actually have moved into the future.
+                if now.timestamp() <= created.timestamp() {
+                    Some(created + chrono::Duration::try_seconds(1).unwrap())
+                }
+                else {
+                    Some(now)
+                }
+            }
+            else {
+                Some(now)
+            }
+        };
     }
 
     /// Pushes a new delta to the history
